@@ -121,7 +121,7 @@ def main():
         ngood = k * MB + extra
         # enough lines so that the selected good rows number exactly ngood (bad rows do not count)
         bad_rate = rng.choice([0.0, 0.01, 0.05])
-        nlines_guess = int(ngood * SS / (1 - bad_rate)) + SS * 3
+        nlines_guess = int(ngood * SS / (1 - bad_rate) * 1.08) + SS * 40
         boundary = {SS * MB, SS * MB + SS, SS * (MB - 1), SS} if rng.random() < 0.7 else set()
         cols, lines, kinds = SC.gen_file(rng, nlines_guess, bad_rate=bad_rate, bad_at=boundary)
         # trim so that exactly ngood good selected rows remain
@@ -138,11 +138,12 @@ def main():
         lines, kinds = lines[:cut + 1], kinds[:cut]
         jobs.append({'op': 'run_stream', 'columns': cols, 'lines': lines, 'opts': {},
                      'args': {'minibatch_size': MB, 'subsampling': SS, 'heuristic': heur, 'target_ranking_only': 'True'}})
-        meta.append((MB, SS, k, extra, heur, len(kinds), kinds))
+        actual_good = sum(1 for p_, kd_ in enumerate(kinds, start=1) if p_ % SS == 0 and kd_ == 'good')
+        meta.append((MB, SS, k, extra, heur, len(kinds), kinds, actual_good))
     got = PC.pipe_eval(jobs, modules=['pipe_ops'], procs=8)
     wd = E.workdir('c08t')
     try:
-        for n, ((MB, SS, k, extra, heur, nl, kinds), job, r) in enumerate(zip(meta, jobs, got)):
+        for n, ((MB, SS, k, extra, heur, nl, kinds, actual_good), job, r) in enumerate(zip(meta, jobs, got)):
             key = f'fullscale:MB={MB} SS={SS} good_selected={k}*MB+{extra} lines={nl} heuristic={heur} seed={seed}'
             rep = {'MB': MB, 'SS': SS, 'k': k, 'extra': extra, 'heuristic': heur, 'seed': seed, 'plan_index': n}
             if r is None or 'ok' not in r:
@@ -155,7 +156,7 @@ def main():
                 idx, ev = SC.describe_rejection(trace, res)
                 V.violation('trace-rejected:' + key, f'TraceStreaming rejects event #{idx} of {len(trace)}: {json.dumps(ev)[:400]}', rep)
             nb = len([e for e in trace if e['e'] == 'batch'])
-            exp_nb = k + (1 if extra > 1024 else 0)
+            exp_nb = actual_good // MB + (1 if actual_good % MB > 1024 else 0)
             if nb != exp_nb and res.ok:
                 raise E.MachineryError(f'{key}: trace accepted with {nb} batches, generator intended {exp_nb}')
             V.count(evaluations=1, nontrivial=1 if ('bad' in kinds or extra) else 0, traces=1)
